@@ -342,6 +342,17 @@ let run (w : string list) : string =
     String.concat " " (List.init 8 (fun q ->
         let l = M.qget st.M.queues (nat_of_int q) in
         Printf.sprintf "q%d=%s" q (if l = [] then "-" else String.concat "|" (List.map (fun g -> String.concat "," (List.map string_of_cz g)) l))))
+  | [ "fam_recv_all"; params; chunks ] ->
+    (match String.split_on_char ':' params with
+     | [ sof; hl; lp; lb; be; ip; kind; fl ] ->
+       let m = { M.f_sof = cn_of_int (int_of_string sof); f_hdr_len = nat_of_int (int_of_string hl);
+                 f_len_pos = nat_of_int (int_of_string lp); f_len_bytes = nat_of_int (int_of_string lb);
+                 f_len_be = (be = "1"); f_id_pos = nat_of_int (int_of_string ip);
+                 f_foot = (if kind = "xor" then M.FXor else M.FSum); f_foot_len = nat_of_int (int_of_string fl) } in
+       (match M.krecv_all (M.fam_codec m) (List.map bytes_of_hex (String.split_on_char ',' chunks)) with
+        | None -> "raise-or-fuel"
+        | Some (fs, _) -> frames_str fs)
+     | _ -> "driver-error params")
   | _ -> "driver-error unknown-command"
 
 let () =
